@@ -403,6 +403,8 @@ def r_modtype(doc, op):
   typ = types[int(op['t']) % len(types)]
   if int(op['c']) % 3 == 0 and typ.startswith('Ref:'):
     typ = 'RefList:' + typ[4:]
+  if typ.split(':')[0] not in GROUPABLE and any(x['summarySourceCol'] == c['id'] for x in doc.columns_meta()):
+    typ = 'Text'     # a group-by column keeps a concrete type (see _groupable)
   return ['ModifyColumn', t['tableId'], c['colId'], {'type': typ}]
 
 
